@@ -5,6 +5,8 @@ import (
 	"encoding/hex"
 	"fmt"
 	"math/rand"
+	"regexp"
+	"strconv"
 	"strings"
 	"unicode/utf8"
 
@@ -634,10 +636,60 @@ func sortStrings(a []string) {
 // ---------------------------------------------------------------------------
 
 type c23Run struct {
-	c        *Ctx
-	cf       *caseFile
-	maxCases int
-	streams  int
+	c         *Ctx
+	cf        *caseFile
+	maxCases  int
+	streams   int
+	compact   bool // write long byte lists of the case terms in the compact form (see c23LongPreamble)
+	reencDone map[string]bool
+	coqN      int // >= 0: number of deliveries of the next checked streams that become Coq cases (overrides the default)
+}
+
+// Long byte lists in case terms. Coq spends about 0.15 ms per element on elaborating a list literal of N
+// numerals, which is far more than the model needs to evaluate it; the family of the long arrays therefore
+// writes byte lists of 24 elements and more as (c23_bytes n [g1; g2; ...]%uint63): the first n bytes of the
+// big-endian 7-byte groups g_i, primitive integers that cost next to nothing. c23_bytes is defined in the
+// preamble of these case files; the value is the same list.
+const c23LongPreamble = `Require Coq.Numbers.Cyclic.Int63.Uint63 Coq.ZArith.ZArith.
+Import PrimInt63.
+Definition c23_byte (x k : PrimInt63.int) : N := BinInt.Z.to_N (Uint63.to_Z (PrimInt63.land (PrimInt63.lsr x k) 255%uint63)).
+Definition c23_group (x : PrimInt63.int) : list N :=
+  [c23_byte x 48%uint63; c23_byte x 40%uint63; c23_byte x 32%uint63; c23_byte x 24%uint63; c23_byte x 16%uint63; c23_byte x 8%uint63; c23_byte x 0%uint63].
+Definition c23_bytes (n : N) (xs : list PrimInt63.int) : list N := List.firstn (N.to_nat n) (List.flat_map c23_group xs).`
+
+var c23ByteListRe = regexp.MustCompile(`\[\d+(?:;\d+){23,}\]`)
+
+func c23CompactBytes(term string) string {
+	return c23ByteListRe.ReplaceAllStringFunc(term, func(m string) string {
+		parts := strings.Split(m[1:len(m)-1], ";")
+		bs := make([]byte, len(parts))
+		for i, p := range parts {
+			v, err := strconv.ParseUint(p, 10, 8)
+			if err != nil {
+				return m // not a list of bytes
+			}
+			bs[i] = byte(v)
+		}
+		var sb strings.Builder
+		fmt.Fprintf(&sb, "(c23_bytes %d [", len(bs))
+		for i := 0; i < len(bs); i += 7 {
+			var g [7]byte
+			copy(g[:], bs[i:])
+			if i > 0 {
+				sb.WriteString(";")
+			}
+			sb.WriteString("0x" + hex.EncodeToString(g[:]))
+		}
+		sb.WriteString("]%uint63)")
+		return sb.String()
+	})
+}
+
+func (r *c23Run) term(t string) string {
+	if r.compact {
+		return c23CompactBytes(t)
+	}
+	return t
 }
 
 func (r *c23Run) addCase(f c23Formats, es []Ev, valid bool, what string) {
@@ -649,7 +701,7 @@ func (r *c23Run) addCase(f c23Formats, es []Ev, valid bool, what string) {
 	if panicked {
 		impl = "None"
 	}
-	r.cf.Add(cApp("CteEncCase", c23CoqCfg(f, es), cEvs(es), impl, cBool(valid)),
+	r.cf.Add(r.term(cApp("CteEncCase", c23CoqCfg(f, es), cEvs(es), impl, cBool(valid))),
 		fmt.Sprintf("%s valid=%v fmts=%s panicked=%v text=%q :: %s", what, valid, f, panicked, text, evsString(es)))
 	r.c.Dist("case/" + what)
 }
@@ -701,7 +753,7 @@ func (r *c23Run) addEquivCase(f c23Formats, a, b []Ev, valid bool, what string) 
 	}
 	ia, ta := impl(a)
 	ib, tb := impl(b)
-	r.cf.Add(cApp("CteEquivCase", c23CoqCfg(f, a), segs, ia, ib, cBool(valid)),
+	r.cf.Add(r.term(cApp("CteEquivCase", c23CoqCfg(f, a), segs, ia, ib, cBool(valid))),
 		fmt.Sprintf("%s valid=%v fmts=%s text1=%q text2=%q :: %s  <=>  %s", what, valid, f, ta, tb, evsString(a), evsString(b)))
 	r.c.Dist("case/" + what)
 	return true
@@ -718,6 +770,9 @@ func (r *c23Run) check(f c23Formats, es []Ev, variants int, what string) {
 		if r.streams%2 == 0 || what == "boundary-context" || strings.HasPrefix(what, "boundary-hex") {
 			coq = 1
 		}
+	}
+	if r.coqN >= 0 {
+		coq = r.coqN
 	}
 	if !c23Valid(es) {
 		c.Dist("stream/" + what + "/rejected-by-rules")
@@ -774,6 +829,15 @@ func (r *c23Run) check(f c23Formats, es []Ev, variants int, what string) {
 	}
 	// decode and re-encode (the canonical text)
 	text, panicked := c23Encode(f, canon)
+	if !panicked && strings.HasPrefix(what, "long-") {
+		// the deliveries of one long array share their canonical text: decode and re-encode it once
+		k := f.String() + "|" + string(text)
+		if r.reencDone[k] {
+			panicked = true
+		} else {
+			r.reencDone[k] = true
+		}
+	}
 	if !panicked {
 		ok, class, got := c23ReencodeOracle(f, text)
 		c.Dist(fmt.Sprintf("reencode-oracle/ok=%v", ok))
@@ -924,6 +988,432 @@ func (r *c23Run) boundary(f c23Formats) {
 	}
 }
 
+// ---------------------------------------------------------------------------
+// long arrays: accumulated sizes around buffer capacities
+//
+// The engine accumulates the contents of string-like arrays (string, resource id, remote reference,
+// custom text) over all data events of the array in a buffer that it keeps between arrays, and writes
+// the text only when the array ends. What a data event does therefore depends on the size accumulated so
+// far and on the capacity retained from earlier arrays of the same encoder. The streams below put the
+// accumulated size on both sides of every capacity c23Capacities at every position of the delivery (the
+// data event that crosses the capacity is the 2nd, the last, one in the middle; the crossing is by one
+// byte, by many, lands exactly on the capacity), on a fresh encoder and on one that has already
+// accumulated shorter / longer arrays.
+
+// capacities a growing buffer can plausibly have: powers of two (Go's append for small slices, doubling
+// schemes, minimum capacities), 1.5x steps, round decimal sizes.
+func c23Capacities(max int) []int {
+	out := []int{}
+	for _, c := range []int{8, 16, 24, 32, 48, 64, 96, 100, 128, 192, 256, 384, 512, 768, 1000, 1024, 1536, 2048, 3072, 4096, 8192, 16384, 32768, 65536} {
+		if c <= max {
+			out = append(out, c)
+		}
+	}
+	return out
+}
+
+var c23Alphabet = []byte("0123456789abcdefghijklmnopqrstuvwxyzABCDEFGHIJKLMNOPQRSTUVWXYZ")
+
+// c23LongText: n bytes of valid UTF-8. style 0: ASCII whose bytes tell their position; style 1: 1..4 byte
+// characters, escapes, line feeds and spaces mixed in (padded with ASCII to exactly n bytes).
+func c23LongText(rng *rand.Rand, n int, style int) []byte {
+	out := make([]byte, 0, n)
+	if style == 0 {
+		off := rng.Intn(len(c23Alphabet))
+		for i := 0; i < n; i++ {
+			out = append(out, c23Alphabet[(i+off)%len(c23Alphabet)])
+		}
+		return out
+	}
+	palette := []string{"é", "€", "\U0001D11E", "日", "ß", " ", "\n", "\"", "\\", "\t", "/", "*", "\x01", "\x7f", " ", " "}
+	for len(out) < n {
+		var s string
+		if rng.Intn(3) == 0 {
+			s = palette[rng.Intn(len(palette))]
+		} else {
+			s = string(c23Alphabet[rng.Intn(len(c23Alphabet))])
+		}
+		if len(out)+len(s) > n {
+			s = string(c23Alphabet[len(out)%len(c23Alphabet)])
+		}
+		out = append(out, s...)
+	}
+	return out
+}
+
+type c23Split struct {
+	name string
+	cuts []int // strictly increasing positions in 1..n-1
+}
+
+func c23CutsOfSizes(n int, sizes func(i int) int) []int {
+	cuts := []int{}
+	for p, i := 0, 0; ; i++ {
+		k := sizes(i)
+		if k < 1 {
+			k = 1
+		}
+		p += k
+		if p >= n {
+			return cuts
+		}
+		cuts = append(cuts, p)
+	}
+}
+
+// c23LongSplits: the ways n accumulated bytes are cut into data events / chunks.
+func c23LongSplits(rng *rand.Rand, n int, perByte bool) []c23Split {
+	out := []c23Split{}
+	if n < 2 {
+		return out
+	}
+	// two pieces: the second data event crosses every capacity below n from every distance
+	pos := map[int]bool{1: true, n - 1: true, n / 2: true, 2 * n / 5: true}
+	for _, c := range c23Capacities(n) {
+		for _, p := range []int{c - 1, c, c + 1} {
+			pos[p] = true
+		}
+	}
+	ps := []int{}
+	for p := range pos {
+		if p >= 1 && p <= n-1 {
+			ps = append(ps, p)
+		}
+	}
+	sortInts(ps)
+	for _, p := range ps {
+		out = append(out, c23Split{fmt.Sprintf("2way@%d", p), []int{p}})
+	}
+	// equal pieces: the capacity is crossed by the k-th data event for every k
+	for _, sz := range []int{1, 3, 7, 10, 16, 31, 33, 64, 100, 257, 1000} {
+		if sz >= n || (sz == 1 && !perByte) || n/sz > 700 {
+			continue
+		}
+		sz := sz
+		out = append(out, c23Split{fmt.Sprintf("equal%d", sz), c23CutsOfSizes(n, func(int) int { return sz })})
+	}
+	// growing and shrinking pieces
+	out = append(out, c23Split{"doubling", c23CutsOfSizes(n, func(i int) int {
+		if i > 24 {
+			i = 24
+		}
+		return 1 << uint(i)
+	})})
+	if n > 4 {
+		out = append(out, c23Split{"halving", c23CutsOfSizes(n, func(i int) int {
+			k := n >> uint(i+1)
+			if i > 30 {
+				k = 1
+			}
+			return k
+		})})
+	}
+	// one large piece after many small ones and the reverse
+	if n > 20 {
+		tail := []int{}
+		for p := 1; p <= 9; p++ {
+			tail = append(tail, p)
+		}
+		out = append(out, c23Split{"small-then-rest", tail})
+		head := []int{}
+		for p := n - 9; p <= n-1; p++ {
+			head = append(head, p)
+		}
+		out = append(out, c23Split{"most-then-small", head})
+	}
+	// random cuts
+	for k := 0; k < 3; k++ {
+		set := map[int]bool{}
+		for j := 2 + rng.Intn(7); j > 0; j-- {
+			set[1+rng.Intn(n-1)] = true
+		}
+		cuts := []int{}
+		for p := range set {
+			cuts = append(cuts, p)
+		}
+		sortInts(cuts)
+		out = append(out, c23Split{fmt.Sprintf("random%d", k), cuts})
+	}
+	return out
+}
+
+// c23CutDelivery: the events of one array whose bytes are cut into chunks at chunkCuts and, inside the
+// chunks, into data events at dataCuts (positions in bytes; for string-like kinds the chunk cuts are moved
+// forward to the next character boundary). empties: put an empty data event before every third data event;
+// zero: start with a zero-length chunk.
+func (g *c23Group) cutDelivery(chunkCuts, dataCuts []int, empties, zero bool) []Ev {
+	n := len(g.data)
+	isCut := map[int]bool{}
+	for _, p := range dataCuts {
+		if p > 0 && p < n {
+			isCut[p] = true
+		}
+	}
+	cc := []int{}
+	for _, p := range chunkCuts {
+		p -= p % g.width
+		if g.kind == "str" {
+			for p < n && !utf8.RuneStart(g.data[p]) {
+				p++
+			}
+		}
+		if p > 0 && p < n && (len(cc) == 0 || cc[len(cc)-1] < p) {
+			cc = append(cc, p)
+		}
+	}
+	cc = append(cc, n)
+	out := []Ev{g.beginEvent()}
+	if zero {
+		out = append(out, Ev{K: "ac", N: 0, B: true})
+	}
+	nd := 0
+	for ci, a := 0, 0; ci < len(cc); ci++ {
+		b := cc[ci]
+		out = append(out, Ev{K: "ac", N: uint64((b - a) / g.width), B: ci < len(cc)-1})
+		for p := a; p < b; {
+			q := p + 1
+			for q < b && !isCut[q] {
+				q++
+			}
+			nd++
+			if empties && nd%3 == 2 {
+				out = append(out, Ev{K: "ad", Data: []byte{}})
+			}
+			out = append(out, Ev{K: "ad", Data: cp(g.data[p:q])})
+			p = q
+		}
+		a = b
+	}
+	return out
+}
+
+// c23LongForms: the deliveries of a split: all pieces data events of one chunk; every piece its own chunk;
+// chunks of two or three pieces with empty data events and a leading zero-length chunk.
+func (g *c23Group) longForms(sp c23Split) (names []string, forms [][]Ev) {
+	names = append(names, "data")
+	forms = append(forms, g.cutDelivery(nil, sp.cuts, false, false))
+	names = append(names, "chunks")
+	forms = append(forms, g.cutDelivery(sp.cuts, nil, false, false))
+	if len(sp.cuts) >= 2 {
+		cc := []int{}
+		for i := 1; i < len(sp.cuts); i += 2 + i%2 {
+			cc = append(cc, sp.cuts[i])
+		}
+		names = append(names, "mixed")
+		forms = append(forms, g.cutDelivery(cc, sp.cuts, true, true))
+	}
+	return
+}
+
+func c23StrGroup(t events.ArrayType, data []byte) *c23Group {
+	if t == events.ArrayTypeCustomText {
+		return &c23Group{kind: "str", hdr: "custom", t: t, ct: 7, width: 1, data: data}
+	}
+	return &c23Group{kind: "str", hdr: "a", t: t, width: 1, data: data}
+}
+
+// long: see the comment at the head of this section.
+func (r *c23Run) long(f c23Formats) {
+	c := r.c
+	rng := c.Rng
+	defer func() { r.coqN = -1 }()
+
+	// sizes: one past every capacity; one below, exactly at and somewhere above every power of two
+	maxLen := c.Pick(2048, 16384)
+	lens := map[int]bool{2*maxLen + 1: true}
+	for _, k := range c23Capacities(maxLen) {
+		lens[k+1] = true
+		if k >= 64 && k&(k-1) == 0 {
+			lens[k-1] = true
+			lens[k] = true
+			lens[k+k/4+rng.Intn(k/4+1)] = true
+		}
+	}
+	ls := []int{}
+	for l := range lens {
+		ls = append(ls, l)
+	}
+	sortInts(ls)
+	strTypes := []events.ArrayType{events.ArrayTypeString, events.ArrayTypeResourceID, events.ArrayTypeReferenceRemote, events.ArrayTypeCustomText}
+	turn := 0
+	for li, n := range ls {
+		for ti, t := range strTypes {
+			style := 0
+			if (n+ti)%3 == 0 {
+				style = 1
+			}
+			g := c23StrGroup(t, c23LongText(rng, n, style))
+			r.coqN = 0
+			r.check(f, c23Doc(g.whole(nil)...), 0, "long-str-whole")
+			type delivery struct {
+				what string
+				es   []Ev
+			}
+			ds := []delivery{}
+			for si, sp := range c23LongSplits(rng, n, n <= c.Pick(300, 5000)) {
+				if ti > 0 && n > 600 && (si+ti+n)%2 == 0 && c.Tier == "quick" {
+					continue
+				}
+				names, forms := g.longForms(sp)
+				for i, es := range forms {
+					if strings.HasPrefix(sp.name, "2way") && names[i] == "chunks" && (si+ti)%3 != 0 {
+						continue
+					}
+					c.Dist("long-str/" + strings.TrimRight(sp.name, "0123456789") + "/" + names[i])
+					ds = append(ds, delivery{"long-str-" + names[i], es})
+				}
+			}
+			// Coq cases: a long array costs the model a noticeable time, so a fixed number per size and type:
+			// two deliveries (one for the sizes below the first capacity of interest and, in the quick tier,
+			// for the largest ones), taken in rotation so that every kind of split gets its turn
+			k := c.Pick(2, 6)
+			switch {
+			case n < 60 && c.Tier == "quick":
+				k = 1
+			case n > 5000:
+				k = 0
+				if ti == li%len(strTypes) {
+					k = 1
+				}
+			case n > 1100 && c.Tier == "quick":
+				k = 0
+				if ti == 0 || ti == li%len(strTypes) {
+					k = 1
+				}
+			case n > 1100:
+				k = 2
+			}
+			pick := map[int]bool{}
+			for j := 0; j < k && len(ds) > 0; j++ {
+				pick[(li*7+ti*3+j*(len(ds)/k+1))%len(ds)] = true
+			}
+			for i, d := range ds {
+				turn++
+				r.coqN = 0
+				if pick[i] {
+					r.coqN = 1
+				}
+				r.check(f, c23Doc(d.es...), 0, d.what)
+			}
+		}
+	}
+
+	// several accumulating arrays on one encoder: the capacity left by earlier arrays is smaller / larger
+	// than what the next one needs; whole-array events in between; as map keys and values.
+	seqs := [][]int{{10, 100, 30, 300, 1000}, {1000, 300, 100, 30, 10}, {65, 64, 63, 129, 128, 127}, {40, 70, 40, 130, 70, 260}, {5, 9, 17, 33, 65, 129, 257, 513}}
+	for k := 0; k < c.Pick(3, 20); k++ {
+		seq := []int{}
+		for j := 2 + rng.Intn(5); j > 0; j-- {
+			cs := c23Capacities(c.Pick(1024, 8192))
+			seq = append(seq, cs[rng.Intn(len(cs))]+rng.Intn(5)-2)
+		}
+		seqs = append(seqs, seq)
+	}
+	for si, seq := range seqs {
+		for variant := 0; variant < 4; variant++ {
+			body := []Ev{{K: "l"}}
+			if variant == 3 {
+				body = []Ev{{K: "m"}}
+				if len(seq)%2 == 1 {
+					seq = seq[:len(seq)-1]
+				}
+			}
+			for j, n := range seq {
+				t := strTypes[0]
+				if variant == 1 {
+					t = strTypes[(j+si)%len(strTypes)]
+				}
+				g := c23StrGroup(t, c23LongText(rng, n, (j+variant)%2))
+				switch {
+				case variant == 2 && j%2 == 1:
+					body = append(body, g.whole(nil)...)
+				default:
+					sp := c23Split{"", c23CutsOfSizes(n, func(i int) int { return 1 + (2*n/5+i*7)%(n/2+1) })}
+					if j%3 == 2 {
+						body = append(body, g.cutDelivery(sp.cuts, nil, false, false)...)
+					} else {
+						body = append(body, g.cutDelivery(nil, sp.cuts, j%2 == 1, false)...)
+					}
+				}
+			}
+			body = append(body, Ev{K: "e"})
+			r.coqN = 0
+			if variant != 2 {
+				r.coqN = 1
+			}
+			r.check(f, c23Doc(body...), 2, "long-str-sequence")
+		}
+	}
+
+	// the other kinds do not accumulate, but their data events meet the same sizes: u8, u16 (odd cuts leave
+	// half an element), uid, bits, media, custom binary at a few long sizes
+	for _, n := range []int{63, 64, 65, 100, 255, 257, 1025} {
+		if n > 300 && c.Tier == "quick" && n != 1025 {
+			continue
+		}
+		raw := make([]byte, n*2)
+		rng.Read(raw)
+		groups := []*c23Group{
+			{kind: "num", hdr: "a", t: events.ArrayTypeUint8, width: 1, data: raw[:n]},
+			{kind: "num", hdr: "a", t: events.ArrayTypeUint16, width: 2, data: raw[:n*2]},
+			{kind: "num", hdr: "a", t: events.ArrayTypeUID, width: 16, data: raw[:(n*2)/16*16]},
+			{kind: "hex", hdr: "media", t: events.ArrayTypeMedia, mt: "a/b", width: 1, data: raw[:n]},
+			{kind: "hex", hdr: "custom", t: events.ArrayTypeCustomBinary, ct: 3, width: 1, data: raw[:n]},
+		}
+		for gi, g := range groups {
+			for si, sp := range c23LongSplits(rng, len(g.data), false) {
+				if (si+gi)%3 != 0 && !strings.HasPrefix(sp.name, "equal") {
+					continue
+				}
+				es := g.cutDelivery(nil, sp.cuts, false, false)
+				if si%2 == 1 {
+					cc := []int{}
+					for i := 0; i < len(sp.cuts); i += 2 {
+						cc = append(cc, sp.cuts[i])
+					}
+					es = g.cutDelivery(cc, sp.cuts, false, si%4 == 1)
+				}
+				turn++
+				r.coqN = 0
+				if turn%50 == 0 && n < 300 {
+					r.coqN = 1
+				}
+				r.check(f, c23Doc(es...), 0, "long-"+g.kind)
+			}
+		}
+		bits := make([]bool, n*3)
+		for i := range bits {
+			bits[i] = rng.Intn(2) == 0
+		}
+		g := &c23Group{kind: "bit", hdr: "a", t: events.ArrayTypeBit, bits: bits}
+		r.coqN = 0
+		r.check(f, c23Doc(g.whole(nil)...), c.Pick(3, 8), "long-bit")
+	}
+}
+
+// stretched: documents of the tree generator in which some string-like arrays are made long (the generator's
+// own strings stay far below the first capacity), then re-delivered like every generated document.
+func (r *c23Run) stretched(f c23Formats, es []Ev) {
+	rng := r.c.Rng
+	items := c23Parse(es)
+	n := 0
+	for _, it := range items {
+		if it.grp != nil && it.grp.kind == "str" && rng.Intn(2) == 0 {
+			cs := c23Capacities(r.c.Pick(512, 4096))
+			extra := cs[rng.Intn(len(cs))] + rng.Intn(7) - 3 - len(it.grp.data)
+			if extra > 0 {
+				it.grp.data = append(it.grp.data, c23LongText(rng, extra, rng.Intn(2))...)
+				n++
+			}
+		}
+	}
+	if n == 0 {
+		return
+	}
+	o := c23ChunkOpts{maxChunks: 1 + rng.Intn(4), emptyData: rng.Intn(3) == 0, zeroChunks: rng.Intn(3) == 0}
+	r.check(f, c23Deliver(rng, items, "chunked", o), r.c.Pick(2, 5), "generated-stretched")
+}
+
 // malformed streams go to the encoder without a validator; only the model comparison applies.
 func (r *c23Run) malformed(f c23Formats, g *EvGen) {
 	u16 := events.ArrayTypeUint16
@@ -1001,9 +1491,14 @@ func runC23(c *Ctx) {
 		"plus boundary sets (every array type x element counts 0..3 x every two-way split of the bytes; bit arrays of every length 0..18 x every chunk boundary; " +
 		"strings with 1..4 byte characters split at every byte; media/custom with and without empty data events); each stream is re-delivered whole and k ways " +
 		"chunked (random chunk boundaries, data events split at random bytes incl. mid-element and mid-character, empty data events, zero-length chunks); " +
+		"long arrays (string, resource id, remote reference, custom text of every size one past each plausible buffer capacity 8..2048 (thorough: ..16384) and one below / " +
+		"at / above each power of two, plus one of twice the largest: every two-way split next to every capacity below the size, equal pieces of 1..1000 bytes, doubling / " +
+		"halving pieces, small-then-rest, most-then-small, random cuts, each as data events of one chunk, as chunks, and mixed with empty data events and zero-length " +
+		"chunks; sequences of such arrays on one encoder with growing / shrinking / alternating sizes; long u8 / u16 / uid / bit / media / custom-binary arrays; generated " +
+		"documents with strings stretched to those sizes); " +
 		"non-trivial = the stream contains at least one array; distinct = distinct (delivery, formats, event text); malformed streams (hand-written + mutants) " +
 		"are compared with the model only"
-	r := &c23Run{c: c, cf: c.Cases("cteenc", "CE.Model.CteEnc", "cteenc_case", "cteenc_case_ok"), maxCases: c.Pick(1900, 20000)}
+	r := &c23Run{c: c, cf: c.Cases("cteenc", "CE.Model.CteEnc", "cteenc_case", "cteenc_case_ok"), maxCases: c.Pick(1900, 20000), coqN: -1, reencDone: map[string]bool{}}
 	r.cf.perFile = 200
 	def := c23DefaultFormats()
 
@@ -1034,9 +1529,29 @@ func runC23(c *Ctx) {
 	for k, v := range g.Kinds {
 		c.Rep.Distribution["gen-kind/"+k] += v
 	}
+	// after everything else, so that the streams above are the same as before for a given seed; the cases
+	// go to a family of their own with few cases per file (a long array costs the model seconds)
+	r.cf = c.Cases("cteenclong", "CE.Model.CteEnc", "cteenc_case", "cteenc_case_ok")
+	r.cf.perFile = 60
+	r.cf.preamble = c23LongPreamble
+	r.compact = true
+	r.maxCases = c.Pick(400, 6000)
+	r.long(def)
+	r.coqN = 0
+	for i, n2 := 0, c.Pick(150, 2000); i < n2; i++ {
+		if i%10 == 0 {
+			r.coqN = 1
+		} else {
+			r.coqN = 0
+		}
+		r.stretched(def, g.Document())
+	}
+	r.coqN = -1
 	c.Rep.Extra["coq_case_kinds"] = "CteEncCase: model text = implementation text (and no dirty Column read when rules-valid); " +
 		"CteEquivCase: whole-array delivery vs a re-delivery, described segment by segment; Coq checks seg_okb (the pair satisfies the " +
 		"hypothesis chunk_equiv of theorem C23_cte_text_chunk_invariant, by C23_generated_pairs_are_equivalent), both texts, col_clean of both"
+	c.Rep.Extra["long_array_cases"] = "family cteenclong: byte lists of 24 and more elements are written as (c23_bytes n [7-byte groups]%uint63), decoded by the " +
+		"definitions in the preamble of those case files (same list value; elaborating the plain literal costs Coq ten times the evaluation of the model)"
 	c.Rep.Extra["not_covered_by_theorems"] = []string{
 		"decode-and-re-encode half: no Coq model of the CTE reader; evaluated on the implementation only (keys C23/reencode/...)"}
 	c.Rep.Extra["pinned_repaired_findings"] = []string{"C23/chunking/hex-array-empty-data-event (fix bf83d88)", "C23/reencode/text-differs/time-latlong (fix 471e180)"}
